@@ -205,9 +205,77 @@ def check_joiner(case):
     return out
 
 
+OWN_BASES = ("select", "select_join", "update", "delete", "select_alias")
+OWN_CALLS = ("from_", "join_cross", "join_on", "join_using", "from_twice", "join_joined_again")
+
+
+def own_source_cases():
+    """the argument of from_() / join() is the very object that is a source of the receiver already (a self-join written with one object):
+    the automatic alias the new occurrence needs is a side effect on an ARGUMENT only as long as the receiver does not share it"""
+    for cls in prog.CLS_NAMES:
+        for base in OWN_BASES:
+            for call in OWN_CALLS:
+                yield {"family": "own_source", "cls": cls, "base": base, "call": call}
+
+
+def check_own_source(case):
+    import copy as _copy
+    import pypika_tortoise as P
+
+    Q = prog.query_cls(case["cls"])
+
+    def build():
+        t, u = P.Table("t", alias="x" if case["base"] == "select_alias" else None), P.Table("u")
+        if case["base"] in ("select", "select_alias"):
+            q = Q.from_(t).select(t.a).where(t.b == 1)
+        elif case["base"] == "select_join":
+            q = Q.from_(t).join(u).on(t.a == u.a).select(t.a, u.b)
+        elif case["base"] == "update":
+            q = Q.update(t).set(t.a, 1).where(t.b == 1)
+        else:
+            q = Q.from_(t).delete().where(t.b == 1)
+        return q, t, u
+
+    def call(q, t, u):
+        c = case["call"]
+        if c == "from_":
+            return q.from_(t)
+        if c == "from_twice":
+            return q.from_(t).from_(t)
+        if c == "join_cross":
+            return q.join(t).cross()
+        if c == "join_on":
+            return q.join(t).on(t.a == 1)
+        if c == "join_using":
+            return q.join(t).using("k")
+        return q.join(u).cross() if case["base"] == "select_join" else q.join(t).cross().join(t).cross()
+
+    try:
+        q, t, u = build()
+        before = snap.render_snapshot(q)
+        clone = _copy.deepcopy(q)
+        try:
+            call(q, t, u)
+        except Exception as e:
+            if not type(e).__module__.startswith("pypika_tortoise"):
+                raise
+        after = snap.render_snapshot(q)
+        fresh = snap.render_snapshot(build()[0])
+        clone_after = snap.render_snapshot(clone)
+    except Exception as e:
+        return [(mksig("own_source", "raises", type(e).__name__), repr(e))]
+    out = []
+    if after != before or before != fresh or clone_after != before:
+        d = snap.diff_keys(after, before) or snap.diff_keys(before, fresh) or snap.diff_keys(clone_after, before)
+        out.append((mksig("own_source", "receiver_changed"), "%s on a %s statement, given the receiver's own table object: the receiver rendered %r before the call and %r after it" % (case["call"], case["base"], before.get(d[0]), after.get(d[0]))))
+    return out
+
+
 def check_case(case):
     if case.get("family") == "joiner":
         return check_joiner(case)
+    if case.get("family") == "own_source":
+        return check_own_source(case)
     out = []
     seen = set()
 
@@ -224,6 +292,8 @@ def valid_case(case):
     try:
         if case.get("family") == "joiner":
             return case in list(joiner_cases())
+        if case.get("family") == "own_source":
+            return case in list(own_source_cases())
         ops = case["ops"]
         n = 0
         for op in ops:
@@ -244,7 +314,7 @@ def valid_case(case):
 
 def shards(tier, sd):
     n = 8 if tier == "quick" else 32
-    return [(tier, sd * 1000 + k, k) for k in range(n)] + [("matrix:" + tier, sd * 1000 + 700 + k, k) for k in range(8)] + [("joiner", 0, 0)]
+    return [(tier, sd * 1000 + k, k) for k in range(n)] + [("matrix:" + tier, sd * 1000 + 700 + k, k) for k in range(8)] + [("joiner", 0, 0), ("own_source", 0, 0)]
 
 
 @functools.lru_cache(maxsize=None)
@@ -296,6 +366,13 @@ def run_shard(shard):
     tier, sd, k = shard
     if tier.startswith("matrix:"):
         return run_matrix_shard(tier, sd, k)
+    if tier == "own_source":
+        col = Collector()
+        for case in own_source_cases():
+            col.case(case, True, classes=("own_source",))
+            for sig, detail in check_own_source(case):
+                col.violation(sig, case, detail)
+        return col
     if tier == "joiner":
         col = Collector()
         for case in joiner_cases():
